@@ -743,7 +743,7 @@ impl<K: Kind> crate::Scenario for Capped<K> {
             });
             let mut cur = count(&mref);
             let mut tries = 0;
-            while cur < target && tries < 20000 && !pool.is_empty() {
+            while cur < target && tries < 600 && !pool.is_empty() {
                 tries += 1;
                 let a = rng.pick(&pool).clone();
                 let b = rng.pick(&pool).clone();
